@@ -1639,6 +1639,8 @@ def do_define_cmake(line: str, confdata: 'ConfigurationData', at_only: bool,
 
     arr = line[1:].split()
 
+    if len(arr) < 2:
+        raise MesonException('#cmakedefine does not name a variable: %s' % line.strip())
     if len(arr) != 2 and subproject is not None:
         from ..interpreterbase.decorators import FeatureNew
         FeatureNew.single_use('cmakedefine without exactly two tokens', '0.54.1', subproject)
